@@ -318,6 +318,13 @@ def corpus_cases():
         P(0, b'repeat\nx=1\nuntil x\n', b'  repeat\n    x=1\n  until x\n', note='width 0'),
         P(2, b'x=[[a  \n\n\n  b]]\ny=1\n', b'  x=[[a  \n\n\n  b]]  \n   y=1\n', note='long string content'),
         P(2, b'if (a) x=1 else y=2\nz=3\n', b'   if (a) x=1 else y=2  \n z=3\n', note='short if'),
+        # a one-line if whose else has no statements after it (the parser drops the empty else, the writer re-emits its
+        # tokens): the lines that follow keep their depth
+        P(2, b'do\nif (a) x=1 else\ny=2\nwhile b do\nz=3\nend\nend\nw=4\n',
+          b'do\n   if (a) x=1 else  \n y=2\n      while b do\nz=3\n  end\n end\n    w=4\n', note='short if, empty else'),
+        P(4, b'function f()\nif (a) x=1 else ;\nif (b) y=2 else -- c\nreturn {\n1,\n2\n}\nend\n',
+          b'function f()\n if (a) x=1 else ;\n      if (b) y=2 else -- c\n return {\n 1,\n   2\n  }\n   end\n', note='short if, empty else'),
+        P(1, b'if (a) x=1 else\ny=2\n', b'  if (a) x=1 else\n    y=2\n', note='short if, empty else'),
         # third fix: a file without a final newline; blanks after the last token / comment
         P(2, b'x=1\n-- c', b'x=1\n-- c  ', b'  x=1 \n\t-- c \t', note='no final newline'),
         P(4, b'do\nx=1\nend --[[c]]', b'do\n  x=1\nend --[[c]]   ', note='no final newline'),
